@@ -561,6 +561,7 @@ int main(int argc, char** argv) {
     else if (arg("--replay")) O.replay = argv[++i];
     else if (!strcmp(argv[i], "--trace")) g_cfg.trace = 1;
     else if (arg("--wall")) g_cfg.wall_limit_s = atoi(argv[++i]);
+    else if (arg("--plain-horizon")) g_cfg.plain_horizon = atol(argv[++i]);
     else if (arg("--opt")) {
       char* kv = argv[++i];
       char* eq = strchr(kv, '=');
